@@ -229,6 +229,51 @@ def check(model, rep, tier):
             'the statement inferrer must read the joined input state',
             line=vn.node.lineno)
 
+  # what the resolver answers is used for the expression it was asked about, not
+  # kept in a table: a table keyed by a literal's *value* identifies 0, 0.0 and
+  # False (equal, same hash), one keyed by a name forgets rebinding
+  si_ = model.cls(TI, 'StmtInferrer')
+  memo = []
+  n_res = 0
+  for mname_, m_ in si_.methods.items():
+    for a_ in core.walk_no_nested(m_.node):
+      if isinstance(a_, ast.Call) and core.norm(a_.func).startswith('self.resolver.res_'):
+        n_res += 1
+      if isinstance(a_, ast.Assign) and any(
+          isinstance(t_, ast.Subscript) and core.norm(t_.value).startswith('self.')
+          for t_ in a_.targets):
+        v_ = tpl.expand(m_, a_.value, a_)
+        if any(isinstance(c_, ast.Call) and core.norm(c_.func).startswith(
+            'self.resolver.res_') for c_ in ast.walk(v_)):
+          # keyed by the *value* of a literal (directly, or through a parameter
+          # that callers fill with <node>.value / a constant)?  The table of
+          # assigned symbols, keyed by qualified names, is the inferrer's output.
+          for t_ in a_.targets:
+            if not isinstance(t_, ast.Subscript):
+              continue
+            k_ = t_.slice
+            srcs = [tpl.xnorm(m_, k_, a_)]
+            if isinstance(k_, ast.Name) and k_.id in m_.params():
+              idx_ = m_.params().index(k_.id)
+              for m2_ in si_.methods.values():
+                for c2_ in ast.walk(m2_.node):
+                  if isinstance(c2_, ast.Call) and core.norm(c2_.func) == 'self.' + mname_ \
+                      and len(c2_.args) > idx_:
+                    x2_ = c2_.args[idx_]
+                    srcs.append('<const>' if isinstance(x2_, ast.Constant)
+                                else tpl.xnorm(m2_, x2_, c2_))
+            if any(s_ == '<const>' or s_.endswith('.value') for s_ in srcs):
+              memo.append('%s: %s (key from %s)' % (mname_, core.norm(a_)[:60], srcs))
+      if isinstance(a_, ast.Call) and isinstance(a_.func, ast.Attribute) and \
+          a_.func.attr == 'setdefault' and core.norm(a_.func.value).startswith('self.') and \
+          any(isinstance(c_, ast.Call) and core.norm(c_.func).startswith(
+              'self.resolver.res_') for x_ in a_.args for c_ in ast.walk(x_)):
+        memo.append('%s: %s' % (mname_, core.norm(a_)[:70]))
+  rep.check(n_res >= 5 and not memo, 'TI-NONE', '%s:StmtInferrer:resolver-answers-not-memoised' % TI,
+            'an answer of the resolver is stored in a table of the inferrer and '
+            'served again for a key that compares equal: equal keys do not mean '
+            'equal types', {'stores': memo, 'resolver_calls': n_res},
+            witness='count, total = 0, 0.0 -- total is reported as int')
   # ---------------------------------------------------------------- TI-NONE
   si = model.cls(TI, 'StmtInferrer')
   for hname in ('visit_BinOp', 'visit_UnaryOp', 'visit_Compare', 'visit_Subscript'):
